@@ -80,6 +80,32 @@ fn default_methods() -> Vec<CsiMethod> {
     ]
 }
 
+/// decode the inline `//# sourceMappingURL=data:application/json;base64,...` trailer of the printed content
+fn trailer_map(content: &str) -> Option<swc::sourcemap::SourceMap> {
+    use base64::Engine as _;
+    let marker = "//# sourceMappingURL=data:application/json;base64,";
+    let pos = content.rfind(marker)?;
+    let b64 = content[pos + marker.len()..].trim();
+    let bytes = base64::engine::general_purpose::STANDARD.decode(b64).ok()?;
+    swc::sourcemap::SourceMap::from_reader(&bytes[..]).ok()
+}
+
+/// (line, col) 0-based of the nth occurrence of `needle` in `text`
+fn pos_of(text: &str, needle: &str, nth: usize) -> Option<(u32, u32)> {
+    let mut start = 0;
+    let mut found = None;
+    for _ in 0..=nth {
+        let i = text[start..].find(needle)? + start;
+        found = Some(i);
+        start = i + needle.len().max(1);
+    }
+    let i = found?;
+    let before = &text[..i];
+    let line = before.matches('\n').count() as u32;
+    let col = before.rsplit('\n').next().unwrap_or("").encode_utf16().count() as u32;
+    Some((line, col))
+}
+
 fn count_hooks(code: &str) -> usize {
     code.matches("_ddiast.").count()
 }
@@ -190,6 +216,37 @@ fn main() {
                     let a = v.as_array().unwrap();
                     let (val, line, col) = (a[0].as_str().unwrap(), a[1].as_u64().unwrap() as usize, a[2].as_u64().unwrap() as usize);
                     literals.iter().any(|l| l.0 == val) && !literals.iter().any(|l| l.0 == val && l.1 == line && l.2 == col)
+                }
+                "trailer_count_ne" => content.matches("sourceMappingURL=").count() as i64 != v.as_i64().unwrap(),
+                "map_invalid" => (trailer_map(&content).is_none()) == v.as_bool().unwrap(),
+                "map_sources_ne" => {
+                    let want: Vec<String> = v.as_array().unwrap().iter().map(|x| x.as_str().unwrap().to_string()).collect();
+                    match trailer_map(&content) {
+                        Some(m) => m.sources().map(|s| s.to_string()).collect::<Vec<_>>() != want,
+                        None => true,
+                    }
+                }
+                // {"gen": "text in output", "gen_nth": 0, "orig": "text in the ORIGINAL source", "orig_nth": 0, "source": "name"(optional)}
+                // holds (= violation) when the generated position does NOT resolve to the original position
+                "not_mapped_to" => {
+                    let o = v.as_object().unwrap();
+                    let gen = o["gen"].as_str().unwrap();
+                    let gen_nth = o.get("gen_nth").and_then(|x| x.as_u64()).unwrap_or(0) as usize;
+                    let orig_text = o.get("orig_source_text").and_then(|x| x.as_str()).unwrap_or(&w.source);
+                    let orig = o["orig"].as_str().unwrap();
+                    let orig_nth = o.get("orig_nth").and_then(|x| x.as_u64()).unwrap_or(0) as usize;
+                    match (trailer_map(&content), pos_of(&content, gen, gen_nth), pos_of(orig_text, orig, orig_nth)) {
+                        (Some(m), Some((gl, gc)), Some((ol, oc))) => match m.lookup_token(gl, gc) {
+                            Some(t) => {
+                                let src_ok = match o.get("source").and_then(|x| x.as_str()) { Some(sn) => t.get_source() == Some(sn), None => true };
+                                let exact = t.get_dst_line() == gl && t.get_dst_col() == gc;
+                                println!("--- lookup gen {gl}:{gc} -> {}:{} (src {:?}) want {ol}:{oc}", t.get_src_line(), t.get_src_col(), t.get_source());
+                                !(exact && t.get_src_line() == ol && t.get_src_col() == oc && src_ok)
+                            }
+                            None => true,
+                        },
+                        _ => true,
+                    }
                 }
                 "code_before" => {
                     // ["a","b"]: text a occurs before text b in the code
